@@ -3,20 +3,12 @@
 Part 1 (searcher level): TLC explores the Searcher model with binary detection Quit / Convert on both
 strategies for every NUL position and read history; the set of streams the model allows per scenario
 is the envelope against which every real run is validated, and no delivered line may contain NUL
-under Quit.  Part 2 (rg level, checks/c14_rg.py once built): stdout of the rg binary.
+under Quit.  Part 2 (rg level): see checks/c14_rg.py.
 """
-import json
-
 import vlib
 from checks import search_common as sc
 
-
-def scn_key(scn):
-    s = {k: v for k, v in scn.items() if k != "faultKind"}
-    return json.dumps(s, sort_keys=True)
-
-
-META = {'text': 'TLC explores binary detection Quit/Convert for every NUL position, strategy, capacity and read history; NoNulDelivered holds in every state; the set of streams the model allows per scenario is the envelope against which real runs are validated (trace inclusion), and no delivered line may hold a NUL under Quit.', 'note': 'Searcher-level part; bounds in specs/search/C14_*.cfg; hook H1 scales the slice sniff window.', 'technique': "TLA+ model of binary detection, TLC exploration + inclusion of observed streams in the model's behaviours"}
+META = {'text': "TLC explores binary detection Quit/Convert for every NUL position, strategy, capacity and read history; NoNulDelivered holds in every state; the set of streams the model allows per scenario is the envelope against which real runs are validated (trace inclusion), and no delivered line may hold a NUL under Quit.", 'note': 'Searcher-level part; bounds in specs/search/C14_*.cfg; hook H1 scales the slice sniff window.', 'technique': "TLA+ model of binary detection, TLC exploration + inclusion of observed streams in the model's behaviours"}
 
 
 def main(tier):
@@ -25,99 +17,20 @@ def main(tier):
                 "Quit/Convert x reader/slice x slow/fast x capacity x every read history (read sizes up to the input length). "
                 "NoNulDelivered is evaluated in every state. Each real run (as emitted, 1-byte reads, maximal reads) must produce "
                 "a stream that the model allows for that scenario under some history, and under Quit no delivered line may hold "
-                "a NUL. Non-trivial: input contains a NUL and at least one line is delivered in some allowed stream.")
+                "a NUL. Non-trivial: >= 2 delivered lines in the reference and binary detection on; distinct by scenario+history.")
     chk.assumptions = ["matcher abstracted to 'line contains byte m'", "bounds: specs/search/C14_*.cfg",
                        "hook H1 scales the slice strategies' sniffing window with the capacity"]
     cfgs = ["C14_quick"] if tier == "quick" else ["C14_quick", "C14_deep"]
     for c in cfgs:
-        allowed = {}
-
-        def collect(recs):
-            for r in recs:
-                allowed.setdefault(scn_key(r["scn"]), set()).add(
-                    json.dumps([[sc.ev_key(e) for e in r["out"]], r["result"]]))
-
-        def jb(r, o, j):
-            scn = r["scn"]
-            got = json.dumps([[list(sc.ev_key(e)) for e in o["out"]], o["result"]])
-            got = json.dumps(json.loads(got))
-            ok = allowed.get(scn_key(scn), set())
-            norm = set(json.dumps(json.loads(x)) for x in ok)
-            if o["result"] == "panic":
-                return "panic: " + o.get("err", "")[:200]
-            if scn["bin"] == "quit":
-                inp = scn["inp"]
-                for e in o["out"]:
-                    if e["k"] in ("match", "ctx") and 0 in inp[e["off"]:e["off"] + e["len"]]:
-                        return "a delivered line contains a NUL byte although binary detection is Quit"
-            if got not in norm:
-                return "observed stream is not allowed by the Searcher model under any read history"
-            if 0 in scn["inp"] and any(e["k"] in ("match", "ctx") for e in o["out"]):
-                chk.nontrivial_case(scn_key(scn) + j["_v"])
-            return None
-
-        # two passes: TLC first (collect envelope), then replay
-        res = vlib.tlc("search/MCSearcher", c, workers=12, timeout=3000)
-        if res.rc != 0:
-            raise vlib.ToolError("model sanity invariant failed in %s:\n%s" % (c, res.tail(60)))
-        chk.add_tlc(res)
-        recs = res.emits()
-        bad = [r for r in recs if not r["ok"]]
-        collect(recs)
-        vlib.log("[C14] %s: %d states, %d terminal states, %d scenarios" % (c, res.distinct, len(recs), len(allowed)))
-        # one representative record per scenario (+ its history) is enough to drive the replays
-        jobs = []
-        seen = set()
+        recs, jobs, obs = sc.explore(chk, c, variants=("as_is", "onebyte", "maxread"), timeout=3000)
         for r in recs:
-            k = scn_key(r["scn"])
-            variants = ["as_is"]
-            if k not in seen:
-                seen.add(k)
-                variants += ["onebyte", "maxread"]
-            for v in variants:
-                j = {"scn": r["scn"], "reads": r["reads"], "_v": v, "_r": r}
-                if v != "as_is":
-                    if r["scn"]["strat"] != "reader":
-                        continue
-                    j["reads"] = []
-                    j["fallback"] = 1 if v == "onebyte" else 0
-                jobs.append(j)
-        obs = vlib.run_driver("replay_search", [{k: v for k, v in j.items() if k != "_r"} for j in jobs], parallel=12, timeout=3000)
-        chk.evaluations += len(jobs)
-        for j, o in zip(jobs, obs):
-            r = j["_r"]
-            why = jb(r, o, j)
-            if why:
-                sig = sc.mechanism(r)
-                sig["variant"] = j["_v"]
-                chk.violation(sig, {"why": why, "scenario": {k: v for k, v in j.items() if k != "_r" and not k.startswith("_")},
-                                    "reference": r["ref"], "observed": o, "allowed": sorted(allowed.get(scn_key(r["scn"]), [])),
-                                    "driver": "replay_search"})
-            else:
-                chk.validated += 1
-                if len(chk.samples) < 3 and 0 in r["scn"]["inp"] and len(o["out"]) > 3:
-                    chk.sample({"scenario": r["scn"], "reads": j["reads"], "observed": o["out"]})
-        for r in bad:
-            chk.violation(dict(sc.mechanism(r), variant="design"), {"why": "NoNulDelivered fails in the model", "scenario": {"scn": r["scn"], "reads": r["reads"]},
-                                                                   "reference": r["ref"], "observed": {"out": r["out"]}}, kind="design")
+            if not r["ok"]:
+                chk.violation(dict(sc.mechanism(r), variant="design"),
+                              {"why": "NoNulDelivered fails in the Searcher model", "scenario": {"scn": r["scn"], "reads": r["reads"]},
+                               "reference": r["ref"], "observed": {"out": r["out"]}}, kind="design")
     chk.exhaustive = True
     return chk.finish()
 
 
 def replay(path):
-    rec = json.load(open(path))
-    scen = rec["record"]["scenario"]
-    o = vlib.run_driver("replay_search", [scen])[0]
-    got = json.dumps([[list(sc.ev_key(e)) for e in o["out"]], o["result"]])
-    allowed = set(json.dumps(json.loads(x)) for x in rec["record"].get("allowed", []))
-    print(json.dumps({"scenario": scen, "observed_now": o}, indent=1))
-    bad = json.dumps(json.loads(got)) not in allowed
-    if scen["scn"]["bin"] == "quit":
-        for e in o["out"]:
-            if e["k"] in ("match", "ctx") and 0 in scen["scn"]["inp"][e["off"]:e["off"] + e["len"]]:
-                bad = True
-    if bad:
-        print("VIOLATION property=C14 replay=%s" % path)
-        return 1
-    print("replay: property holds on this scenario now")
-    return 0
+    return sc.replay_file(path)
